@@ -378,9 +378,10 @@ inline bool do_decode_resize(std::vector<T>& v, const uint8_t*& pos, const uint8
     {
         return false;
     }
-    if (size_t(n) > size_t(end - pos))
+    /// every element takes at least its fixed wire size (one byte, if it is dynamic) on the wire
+    const size_t min_element_size = codec_traits<T>::size > 0 ? size_t(codec_traits<T>::size) : 1;
+    if (size_t(n) > size_t(end - pos) / min_element_size)
     {
-        /// every element takes at least one byte on the wire
         return false;
     }
     v.resize(n);
